@@ -4,7 +4,7 @@ from ..rules import r1, r3, r8, r12, r12b, r8
 
 
 def run(ctx: Ctx) -> list[Ob]:
-    return r3.r3c(ctx) + r3.r3d(ctx) + r3.r3e(ctx) + r3.r3f(ctx) + r12.r12a_outputs(ctx) + r8.run_guards(ctx, r8.GUARDS_MATCHERS) + r3.r3g(ctx) + r1.r1d_sweep(ctx) + r12b.layer_rewrites(ctx) + r12b.param_rewrites(ctx) + r12b.shatter_rewrites(ctx) + r3.r3h(ctx) + r3.r3i(ctx) + r12b.pattern_entry_subclasses(ctx)
+    return r3.r3c(ctx) + r3.r3d(ctx) + r3.r3e(ctx) + r3.r3f(ctx) + r12.r12a_outputs(ctx) + r8.run_guards(ctx, r8.GUARDS_MATCHERS) + r3.r3g(ctx) + r1.r1d_sweep(ctx) + r12b.layer_rewrites(ctx) + r12b.param_rewrites(ctx) + r12b.shatter_rewrites(ctx) + r3.r3h(ctx) + r3.r3i(ctx) + r3.r3j(ctx) + r12b.pattern_entry_subclasses(ctx)
 
 
 SPEC = PropSpec(
@@ -24,12 +24,12 @@ SPEC = PropSpec(
         "never by the length of the request; R1d (optimiser sweep): every TorchLayer built by a fuse / shatter apply function receives "
         "semiring= from the compiler or a matched layer. R12b (symbolic shape + layout interpretation of both sides of every optimiser rewrite, nothing executed): for each layer fuse rule (sum collapse, Tucker, CP) and each parameter rule (log-softmax, reduce-sum of outer product -> einsum [+ flatten]), the matched chain and the modules the rule returns are interpreted on the same abstract inputs (arity 2..3 / rank 1..3, every axis pair) and agree on the result shape, on the element order of every result axis, on which data axes are contracted with which parameter axes (a weight viewed as several axes is re-assembled in order), and the fused layer carries the compiler's semiring."
         " R3h: a pointer node that survives folding takes its target from a lookup keyed by the pre-fold target (the registry R3e updates), in the pointer-folding function or in a pass over the folded circuit -- a target taken from deref() alone is the unfolded tensor folding replaced (known finding D19: parameter sharing inside one circuit fails under fold=True)."
-        " R3i: in every config / fold_settings / params of a torch-side module an optional hyper-parameter is included under a None-test, never under a bare truthiness test (a bound of exactly 0.0 would be dropped when the folder / optimiser rebuilds the module from its config). R12c: no strict subclass of a class named by an optimisation pattern's entries() redefines an evaluation method -- the matchers test isinstance, so such a subclass is rewritten by an identity that holds for its parent only."
+        " R3i: in every config / fold_settings / params of a torch-side module an optional hyper-parameter is included under a None-test, never under a bare truthiness test (a bound of exactly 0.0 would be dropped when the folder / optimiser rebuilds the module from its config). R3j: every value a torch-side config returns is hashable (no list display / list(..) / Tensor.tolist(), directly or through a property): the folder uses (type, *fold_settings) with fold_settings = config.items() as a dictionary key. R12c: no strict subclass of a class named by an optimisation pattern's entries() redefines an evaluation method -- the matchers test isinstance, so such a subclass is rewritten by an identity that holds for its parent only."
     ),
     not_decided=(
         "that each optimisation rewrite is an algebraic identity (R12b rewrite carry not built); the other match guards (class, "
         "fan-in, fan-out, config patterns); run-time address-book index arithmetic."
     ),
     run=run,
-    floors={"R12c": 8, "R3i": 4, "R3h": 1, "R3c": 35, "R3d": 10, "R3e": 5, "R3f": 150, "R8": 12, "R3g": 2, "R1d": 5, "R12b": 30},
+    floors={"R3j": 40, "R12c": 8, "R3i": 4, "R3h": 1, "R3c": 35, "R3d": 10, "R3e": 5, "R3f": 150, "R8": 12, "R3g": 2, "R1d": 5, "R12b": 30},
 )
